@@ -1,0 +1,16 @@
+//go:build verif
+
+// Contracts for the deductive verifier in /verif (comment-only file; see /verif/DESIGN.md).
+
+package zerocopy
+
+//@ func MaxHeadroom
+//@   modifies nothing
+//@   ensures result.Front == max(first.Front, second.Front) && result.Rear == max(first.Rear, second.Rear)
+
+//@ func UDPRelayHeadroom
+//@   modifies nothing
+//@   ensures result.Front == max(0, packerHeadroom.Front - unpackerHeadroom.Front) && result.Rear == max(0, packerHeadroom.Rear - unpackerHeadroom.Rear)
+
+//@ func MaxPacketSizeForAddr
+//@   inline
